@@ -207,13 +207,26 @@ def _rejecting_constraint(e, depth=0):
     return name
 
 
+def _spec_widens(spec, d=0):
+    if not isinstance(spec, tuple) or not spec or d > 8:
+        return False
+    if spec[0] in ("xor", "not"):
+        return True
+    if spec[0] in ("or", "and"):
+        return any(_spec_widens(a, d + 1) for a in spec[1])
+    if spec[0] == "opt":
+        return _spec_widens(spec[1], d + 1)
+    return False
+
+
 def mechanism(builder, node, v, opts):
     """structural mechanism tag of a non-fixed-point at `node` (value v = the first parse's output there)"""
     k = node[0]
     if k in ("or", "xor", "opt"):
-        arms = list(node[1]) if k != "opt" else [("leaf", "NoneType"), node[1]]
-        if k == "opt" and node[1][0] in ("or", "xor"):
-            arms = [("leaf", "NoneType")] + list(node[1][1])
+        # Optional[X] is Union[X, None]: X first; typing flattens an inner Union, an inner exclusive-or stays one argument
+        arms = list(node[1]) if k != "opt" else [node[1], ("leaf", "NoneType")]
+        if k == "opt" and node[1][0] == "or":
+            arms = list(node[1][1]) + [("leaf", "NoneType")]
         for a in arms:
             # an arm whose own (nested) output is not a fixed point is the root cause, not the union
             try:
@@ -256,6 +269,8 @@ def mechanism(builder, node, v, opts):
             order.append(dict(opts))
             for st in order:
                 for a in arms:
+                    if st is not order[-1] and _spec_widens(a):
+                        continue  # negations / exclusive-ors are only asked under the options as given
                     try:
                         o = _parse_with(builder, a, v, st)
                     except Exception:
